@@ -10,7 +10,15 @@ Stages (all cases derive from VERIF_SEED):
       serial definitions (Relax.gs_sweep, IluSched.ilu_serial_solve);
   S4  kernels, products, transfer operators, reductions at many thread counts, exact and double
       (bit patterns), compared across thread counts and (exact ones) with the model;
-  S5  statement tests of the theorems on the model under scripted interleavings.
+  S5  statement tests of the theorems on the model under scripted interleavings;
+  S6  REDUCED TEAMS: gs_team / ilu_team / tt.* run the level-scheduled sweeps/solves and the row-parallel
+      backend primitives with an executing OpenMP team of k in {1,2,3} threads although nt in {4,5,17} were
+      configured at set-up (omp_set_num_threads(k) after set-up; host teams thread_limit(k); call from an
+      enclosing active parallel region with nested parallelism off; set-up inside the reduced team as well).
+      The driver prints omp_get_num_threads()/omp_get_max_threads() as seen at the call site, the model prints
+      what the mode is meant to give, and the result must be the serial definition.  A failing gs_team /
+      ilu_team case is additionally compared with the faithful model of the code as it exists
+      (SchedTeam.team_trunc: thread t < k runs tasks[t], tasks[t >= k] are run by nobody).
 """
 import random, itertools, re
 from fractions import Fraction as F
@@ -246,6 +254,94 @@ def cases(tier, seed):
         x = gen.rvec(r, n); rhs = gen.rvec(r, n)
         for nt in [k for k in knts if k >= 1]:
             out.append("k%d.dgs@%d d.gs_sweep %d %d 2 %s %s %s" % (base, nt, it % 2, nt, A, fmt_vec(rhs), fmt_vec(x)))
+    out += team_cases(tier, seed)
+    return out
+
+
+# ------------------------------------------------------------------ reduced teams (S6)
+# (k, mode) pairs for a set-up count nt: see drv_sched.cpp (gs_team) for the modes
+def team_combos(nt, with_setup_inside):
+    cs = [(nt, 0), (nt, 1)]                       # full team through the same code path (must always pass)
+    for k in (1, 2, 3):
+        cs += [(k, 0), (k, 1)]
+        if with_setup_inside: cs.append((k, 3))
+    cs.append((1, 2))
+    if with_setup_inside: cs.append((1, 4))
+    return cs
+
+def team_of(nt, k, mode):
+    """(team, max) the mode is meant to give at the call site"""
+    return {0: (k, k), 1: (k, nt), 3: (k, nt), 2: (1, nt), 4: (1, nt)}[mode]
+
+def team_cases(tier, seed):
+    """own generator: the cases of the other stages do not move when this list changes"""
+    r = random.Random(seed * 1000 + 909)
+    out = []; cnt = [0]
+    def add(op, payload):
+        out.append("T%d %s %s" % (cnt[0], op, payload)); cnt[0] += 1
+    nmat = 40 if tier == "quick" else 160
+    # the Coq witnesses (SchedTeam.team_A / team_L) first
+    gsm = [(4, [[(i, F(2))] for i in range(4)], [F(2)] * 4, [F(0)] * 4)]
+    for _ in range(nmat):
+        n, rows = rand_matrix(r, tier)
+        gsm.append((n, rows, gen.rvec(r, n), gen.rvec(r, n)))
+    for n in (1, 2, 3):
+        for P in r.sample(list(all_patterns(n)), min(6, 1 << (n * n))):
+            gsm.append((n, pat_rows(r, n, P), gen.rvec(r, n), gen.rvec(r, n)))
+    for (n, rows, rhs, x) in gsm:
+        A = fmt_crs(n, n, rows)
+        for nt in (4, 5):
+            for (k, mode) in team_combos(nt, True):
+                fwd = r.choice([0, 1])
+                pl = "%d %d %d %d %s %s %s" % (fwd, nt, k, mode, A, fmt_vec(rhs), fmt_vec(x))
+                add("gs_team", pl)
+                if r.random() < 0.25: add("m.gs_team_cyclic", pl)
+    one = F(1)
+    ilm = [(4, [[], [(0, one)], [(0, one)], [(0, one)]], [[], [], [], []], [one] * 4, [F(1), F(2), F(3), F(4)])]
+    for _ in range(nmat):
+        n = r.choice([4, 5, 6, 8, 9, 12, 16, 17, 20, 25, 31, 33, 40])
+        kind = r.choice(["sym", "nonsym", "nonsym", "band", "grid", "arrow"])
+        L, U, D = tri_factors(r, n, rand_pattern(r, n, kind))
+        ilm.append((n, L, U, D, gen.rvec(r, n)))
+    for (n, L, U, D, x) in ilm:
+        payload = "%s %s %s %s" % (fmt_crs(n, n, L), fmt_crs(n, n, U), fmt_vec(D), fmt_vec(x))
+        for nt in (4, 5):
+            for (k, mode) in team_combos(nt, True):
+                pl = "%d %d %d %s" % (nt, k, mode, payload)
+                add("ilu_team", pl)
+                if r.random() < 0.25: add("m.ilu_team_cyclic", pl)
+    # row-parallel primitives
+    NB = [F(1, 3), F(1, 10), F(-7, 3), F(2, 7), F(5, 9), F(1), F(-1), F(3, 2), F(-1, 10), F(22, 7)]
+    nk = 14 if tier == "quick" else 60
+    for it in range(nk):
+        n = r.choice([2, 3, 5, 8, 13, 17, 24, 33, 40]); m = r.choice([n, n, max(1, n + r.randint(-2, 3))])
+        def val(): return r.choice(NB) if r.random() < 0.6 else gen.rq(r, nz=True)
+        rowsA = [[(c, val()) for c in sorted(r.sample(range(m), r.randint(0, min(m, 5))))] for _ in range(n)]
+        k2 = r.choice([m, max(1, m - 1), m + 2])
+        rowsB = [[(c, val()) for c in sorted(r.sample(range(k2), r.randint(0, min(k2, 5))))] for _ in range(m)]
+        rowsA2 = [[(c, val()) for c in sorted(r.sample(range(m), r.randint(0, min(m, 5))))] for _ in range(n)]
+        A = fmt_crs(n, m, rowsA); B = fmt_crs(m, k2, rowsB); A2 = fmt_crs(n, m, rowsA2)
+        x = [val() for _ in range(m)]; y = [val() for _ in range(n)]; f = [val() for _ in range(n)]
+        u, v, w = [[val() for _ in range(n)] for _ in range(3)]
+        a, b, c = val(), r.choice([F(0), val()]), r.choice([F(0), val()])
+        sq = gen.spd_mmatrix(r, n) if n >= 2 else [[(0, F(2))]]
+        Asq = fmt_crs(n, n, sq)
+        gbase = cnt[0]
+        for nt in (4, 5, 17):
+            for (k, mode) in team_combos(nt, False):
+                hd = "%d %d %d " % (nt, k, mode)
+                if nt != 17:
+                    add("tt.spmv", hd + " ".join([fmt_q(a), A, fmt_vec(x), fmt_q(b), fmt_vec(y)]))
+                    add("tt.residual", hd + " ".join([fmt_vec(f), A, fmt_vec(x), fmt_vec(y)]))
+                    add("tt.axpby", hd + " ".join([fmt_q(a), fmt_vec(u), fmt_q(b), fmt_vec(v)]))
+                    add("tt.axpbypcz", hd + " ".join([fmt_q(a), fmt_vec(u), fmt_q(b), fmt_vec(v), fmt_q(c), fmt_vec(w)]))
+                    add("tt.vmul", hd + " ".join([fmt_q(a), fmt_vec(u), fmt_vec(v), fmt_q(b), fmt_vec(w)]))
+                    add("tt.sum", hd + " ".join([fmt_q(a), A, fmt_q(val()), A2]))
+                    add("tt.transpose", hd + A)
+                    add("tt.rmerge", hd + A + " " + B)
+                    out.append("T%d.g%d tt.gershgorin %s%d %s" % (cnt[0], gbase, hd, it % 2, Asq)); cnt[0] += 1
+                add("tt.inner", hd + fmt_vec(u) + " " + fmt_vec(v))
+                add("tt.product", hd + A + " " + B)
     return out
 
 def fmt_ivec(v): return " ".join([str(len(v))] + [str(int(x)) for x in v])
@@ -348,6 +444,25 @@ def classify(f):
             else:
                 sig["stage"] = "sweep-vs-serial"
                 sig["anti_dependency_not_ordered"] = len(same) + len(earlier) > 0
+        elif op in ("gs_team", "ilu_team"):
+            # the level-scheduled regions executed by a team smaller than the thread count of the set-up.  The known
+            # finding is specific: the team really is smaller AND the implementation's output is exactly what the faithful
+            # model of the existing code (SchedTeam.team_trunc: tasks[t >= team] are skipped) predicts; a wrong result with a
+            # full team, a wrong team header, or any other wrong value keeps another signature and stays a VIOLATION
+            o = 1 if op == "gs_team" else 0
+            nt, k, mode = int(tok[2 + o]), int(tok[3 + o]), int(tok[4 + o])
+            team, mx = team_of(nt, k, mode)
+            sig["site"] = "gauss_seidel::parallel_sweep" if op == "gs_team" else "ilu_solve::sptr_solve"
+            sig["region"] = "level schedule: tasks[omp_get_thread_num()] sized by omp_get_max_threads() at set-up"
+            sig["stage"] = "reduced-team"
+            sig["setup_threads"] = nt; sig["team"] = team
+            sig["team_smaller_than_setup_threads"] = team < nt
+            sig["matches_truncated_team_model"] = bool(f.get("trunc_model")) and f.get("trunc_model") == f.get("impl")
+        elif op.startswith("tt."):
+            nt, k, mode = int(tok[2]), int(tok[3]), int(tok[4])
+            team, mx = team_of(nt, k, mode)
+            sig["site"] = "backend::" + op[3:]; sig["stage"] = "reduced-team"
+            sig["setup_threads"] = nt; sig["team"] = team
         elif op in ("ilu_sched", "ilu_solve"):
             sig["site"] = "ilu_solve::sptr_solve"
         elif op.endswith("t.product") and f.get("stage") == "saad-vs-rmerge":
@@ -441,6 +556,57 @@ def run(ctx, cases_override=None):
             if o.startswith("valid") and not o.endswith("same") or not o.startswith(("valid", "invalid")):
                 fails.append(dict(kind="broken-theorem", case=l, impl=None, model=o, op=op, size=len(l),
                                   theorem="statement test: valid model schedule under a scripted interleaving = serial result"))
+
+    # S6: reduced teams
+    team = [l for l in lines if l.split(" ", 2)[1] in ("gs_team", "ilu_team")]
+    tkern = [l for l in lines if l.split(" ", 2)[1].startswith("tt.")]
+    if team:
+        f, impl6, model6 = diff_run(ctx, "sched", team, env=ENV, shards=8, nontrivial=nontrivial,
+                                    theorem="level-scheduled sweep / solve executed by a team SMALLER than the thread count of the set-up "
+                                            "(team and max threads as printed by the driver) = serial definition "
+                                            "(C09_gs_parallel_sweep_any_team / C09_sptr_solve_any_team for the repaired code; "
+                                            "C09_gs_reduced_team_refuted / C09_sptr_reduced_team_refuted for the code as it was)")
+        if f:
+            # what the faithful model of the EXISTING code predicts for the failing cases
+            tl = []
+            for x in f:
+                cid, op, payload = x["case"].split(" ", 2)
+                tl.append("%s m.%s_trunc %s" % (cid, op, payload))
+            tm = ctx["run_driver"](ctx["model"], tl)
+            for x in f:
+                x["trunc_model"] = tm.get(x["case"].split(" ", 1)[0])
+                x["stage"] = "reduced-team"
+        fails += f
+    if tkern:
+        tmod = [l for l in tkern if l.split(" ", 2)[1] != "tt.gershgorin"]
+        f, impl7, model7 = diff_run(ctx, "sched", tmod, env=ENV, shards=8, nontrivial=nontrivial,
+                                    theorem="row-parallel backend primitive executed by a team smaller than omp_get_max_threads() "
+                                            "(team / max as printed by the driver) = Coq model (Kernels.v / MatOps.v)")
+        for x in f: x["stage"] = "reduced-team"
+        fails += f
+        # Gershgorin radius: no model op in this group; same value for every (set-up, team, mode), right header
+        gl = [l for l in tkern if l.split(" ", 2)[1] == "tt.gershgorin"]
+        og = ctx["run_driver"](ctx["cpp"]["sched"], gl, env_extra=ENV, shards=4)
+        account(ctx, gl, og, nontrivial)
+        groups = {}
+        for l in gl:
+            cid, op, payload = l.split(" ", 2)
+            tk = payload.split()
+            want = "team=%d max=%d " % team_of(int(tk[0]), int(tk[1]), int(tk[2]))
+            o = og.get(cid)
+            if o is None or not o.startswith(want):
+                ctx["stats"]["mismatches"] += 1
+                fails.append(dict(kind="counterexample", case=l, impl=o, model=want + "...", op=op, size=len(l), stage="reduced-team",
+                                  theorem="reduced team: the driver sees the team / max threads the mode is meant to give"))
+                continue
+            groups.setdefault(cid.split(".g")[1], []).append((l, o[len(want):]))
+        for g, items in groups.items():
+            for l, v in items[1:]:
+                if v != items[0][1]:
+                    ctx["stats"]["mismatches"] += 1
+                    fails.append(dict(kind="counterexample", case=l, impl=v, model=items[0][1], op="tt.gershgorin", size=len(l),
+                                      stage="reduced-team", case_lines=[items[0][0], l],
+                                      theorem="Gershgorin spectral radius identical for every set-up thread count and executing team"))
 
     # S4: kernels across thread counts
     if kern:
